@@ -1,0 +1,9 @@
+//go:build !windows && !verif
+
+package filesystem
+
+// verifSyscall is the verification syscall hook. It is a no-op unless the
+// verif build tag is specified.
+func verifSyscall(_ string, _ int, _ string, _ int, _ string) error {
+	return nil
+}
